@@ -6,7 +6,7 @@
    regenerated from /repo on every run).  Positions are one point per list: [lat; lon (; t)] in
    degrees, [x; y; z (; t)] after isometrize. *)
 From Coq Require Import Reals List ZArith Bool.
-From GS Require Import Num Loops Estimator_gen C13_RInst C13_Model C13_Geo C13_Time.
+From GS Require Import Num Loops Formulas Formulas_gen Estimator_gen C13_RInst C13_Model C13_Geo C13_Time C13_Tie.
 Import ListNotations.
 Local Open Scope R_scope.
 
@@ -256,3 +256,41 @@ Theorem C13_hypotheses_satisfiable : forall ora,
              g_temporal m = true /\ 0 < g_geo_scale m /\ last (g_anis m) 0 <> 0).
 Proof. intros ora. exact (conj (orth3_rotz ora) (construct_example ora)). Qed.
 Print Assumptions C13_hypotheses_satisfiable.
+
+(* 17. ties: the model's distance conversions are the formulas translated from tools/geometric.py on this run
+       (gen/Formulas_gen.v), for every number type, no side condition (clipping included: one comparison each) *)
+Theorem C13_tie_great_circle_to_chordal : forall (T : Type) (O : NumOps T) (dist radius : T),
+  Formulas_gen.great_circle_to_chordal O dist radius = C13_Model.great_circle_to_chordal O dist radius.
+Proof. exact great_circle_to_chordal_tie. Qed.
+Print Assumptions C13_tie_great_circle_to_chordal.
+
+Theorem C13_tie_chordal_to_great_circle : forall (T : Type) (O : NumOps T) (dist radius : T),
+  Formulas_gen.chordal_to_great_circle O dist radius = C13_Model.chordal_to_great_circle O dist radius.
+Proof. exact chordal_to_great_circle_tie. Qed.
+Print Assumptions C13_tie_chordal_to_great_circle.
+
+(* cov_yadrenko = covariance o (translated great_circle_to_chordal zeta geo_scale) *)
+Theorem C13_tie_cov_yadrenko : forall (T : Type) (O : NumOps T) (cf : T -> T) geo zeta,
+  cov_yadrenko O cf geo zeta = cf (Formulas_gen.great_circle_to_chordal O zeta geo).
+Proof. exact gen_cov_yadrenko. Qed.
+Print Assumptions C13_tie_cov_yadrenko.
+
+(* 18. theorems 6 and 4 restated on the TRANSLATED source formulas (and the translated estimator kernel) *)
+Theorem C13_source_chordal_great_circle_inverse : forall ora r, 0 < r ->
+  (forall d, 0 <= d <= 2 * r ->
+     Formulas_gen.great_circle_to_chordal (RO ora) (Formulas_gen.chordal_to_great_circle (RO ora) d r) r = d) /\
+  (forall z, 0 <= z <= PI * r ->
+     Formulas_gen.chordal_to_great_circle (RO ora) (Formulas_gen.great_circle_to_chordal (RO ora) z r) r = z).
+Proof. exact gen_chordal_great_circle_inverse. Qed.
+Print Assumptions C13_source_chordal_great_circle_inverse.
+
+Theorem C13_source_estimator_distance_is_model_distance : forall ora r pos i j, 0 < r ->
+  dist (RO ora) (latlon2pos (RO ora) r false 1 [aget2 0 pos 0 i; aget2 0 pos 1 i])
+                (latlon2pos (RO ora) r false 1 [aget2 0 pos 0 j; aget2 0 pos 1 j])
+  = Formulas_gen.great_circle_to_chordal (RO ora) (r * dist_haversine (RO ora) 2 pos i j) r
+  /\ Formulas_gen.chordal_to_great_circle (RO ora)
+       (dist (RO ora) (latlon2pos (RO ora) r false 1 [aget2 0 pos 0 i; aget2 0 pos 1 i])
+                      (latlon2pos (RO ora) r false 1 [aget2 0 pos 0 j; aget2 0 pos 1 j])) r
+     = r * dist_haversine (RO ora) 2 pos i j.
+Proof. exact gen_estimator_distance_is_model_distance. Qed.
+Print Assumptions C13_source_estimator_distance_is_model_distance.
